@@ -53,6 +53,10 @@ pub enum Effect {
     MapSet { c: Cid, key: String, item: Item },
     MapRemove { c: Cid, key: String },
     MapClear { c: Cid },
+    /// a quotation of a sequence range stored under a key of the root map (C20)
+    Quote { key: String, wid: Cid, src: Cid, text: bool, start: Option<(u64, u32)>, end: Option<(u64, u32)>, end_incl: bool, desc: String },
+    /// a link to a map entry stored in the root array (C20)
+    Link { wid: Cid, src: Cid, key: String, uid: (u64, u32) },
     /// a call that was resolved to nothing (empty target, no such type): no effect
     Nop,
 }
